@@ -375,7 +375,7 @@ def report(prop, tier, seed, mod, cfgs, results, wall, write=True):
     ev = {
         "property_id": prop, "tier": tier, "seed": seed, "level": "model_checking",
         "coverage": {
-            "states": tot["paths"], "transitions": tot["decisions"],
+            "states": tot["paths"], "transitions": tot["decisions"] + tot["paths"],  # branch decisions + one final step per path
             "traces_validated_against_impl": tot["concolic"],
             "obligations": tot["obligations"], "discharged": tot["discharged"],
             "discharged_by_solver_query": tot["discharged"] - tot["by_rewriting"],
